@@ -79,6 +79,26 @@ VALUE_TEXTS = ["1", "-3", "1.5", "\"s\"", "true", "null", "ENUMISH", "[1]", "[]"
                "\"\"\"block\"\"\""]
 
 
+def _near_miss(draw, value, A, parse_value, depth=0):
+    """edit a list / object literal in place so that it differs from what it was by one member only -> done?"""
+    if isinstance(value, A.ListValue):
+        inner = [v for v in value.values if isinstance(v, (A.ListValue, A.ObjectValue))]
+        if inner and depth < 3 and draw(st.integers(0, 2)) == 0:
+            return _near_miss(draw, draw(st.sampled_from(inner)), A, parse_value, depth + 1)
+        if value.values and draw(st.booleans()):
+            value.values.pop()
+        else:
+            value.values.append(value.values[0].deepcopy() if value.values and draw(st.booleans()) else parse_value(draw(st.sampled_from(["null", "1", '"s"', "[]", "{}"]))))
+        return True
+    if isinstance(value, A.ObjectValue) and value.fields:
+        inner = [f.value for f in value.fields if isinstance(f.value, (A.ListValue, A.ObjectValue))]
+        if inner and depth < 3 and draw(st.booleans()):
+            return _near_miss(draw, draw(st.sampled_from(inner)), A, parse_value, depth + 1)
+        value.fields.pop(draw(st.integers(0, len(value.fields) - 1)))
+        return True
+    return False
+
+
 def mutate(draw, doc, spec, A, parse_value):
     """Apply one drawn mutation in place.  -> label (or None when not applicable)."""
     nodes = walk(doc, A)
@@ -88,7 +108,58 @@ def mutate(draw, doc, spec, A, parse_value):
         xs = [n for n, _ in nodes if isinstance(n, cls)]
         return draw(st.sampled_from(xs)) if xs else None
 
-    k = draw(st.integers(0, 25))
+    k = draw(st.sampled_from(list(range(27)) + [26] * 5))
+    if k == 26:
+        # one selection text under two parents: `... on X { key: fx { shared } } ... on Y { key: fy { shared } }` where `shared`
+        # is a field both result types have, each with a type of its own (as `id`, `name`, `value` are in real schemas). The two
+        # inner selection sets are equal as texts and as trees; what they select is not.
+        parents = selection_parents(doc, spec, A)
+        cands = []
+        for n, _ in nodes:
+            if isinstance(n, A.SelectionSet):
+                conds = _possible(spec, parents.get(id(n)))
+                if len(conds) >= 2:
+                    cands.append((n, conds))
+        if not cands:
+            return None
+        ss, conds = draw(st.sampled_from(cands))
+
+        def has_shared(tn):
+            return any(fd["name"] == "shared" for tn2 in (_possible(spec, tn) or [tn]) for fd in spec["types"].get(tn2, {}).get("fields") or [])
+
+        def comp_fields(tn):
+            return [fd for fd in spec["types"][tn].get("fields") or []
+                    if has_shared(_named(fd["type"]))
+                    and spec["types"].get(_named(fd["type"]), {}).get("kind") == "object"
+                    and all(not a["type"].endswith("!") or "default" in a for a in fd.get("args") or [])]
+
+        pairs = [(x, fx, y, fy) for x in conds for y in conds if x != y for fx in comp_fields(x) for fy in comp_fields(y)]
+        if not pairs:
+            return None
+        def shared_type(tn):
+            return next(f["type"] for f in spec["types"][tn]["fields"] if f["name"] == "shared")
+
+        x, fx, y, fy = draw(st.sampled_from(pairs))
+        # mostly: the outer fields agree in their wrappers (no conflict there) and the two `shared` disagree in type
+        telling = [p for p in pairs if p[1]["type"].replace(_named(p[1]["type"]), "") == p[3]["type"].replace(_named(p[3]["type"]), "")
+                   and shared_type(_named(p[1]["type"])) != shared_type(_named(p[3]["type"]))]
+        if telling and draw(st.integers(0, 3)):
+            x, fx, y, fy = draw(st.sampled_from(telling))
+
+        def leaf(tn):
+            fd = next(f for f in spec["types"][tn]["fields"] if f["name"] == "shared")
+            composite = spec["types"].get(_named(fd["type"]), {}).get("kind") in ("object", "interface", "union")
+            return A.Field(name=A.Name(value="shared"), alias=None, arguments=[], directives=[],
+                           selection_set=A.SelectionSet(selections=[A.Field(name=A.Name(value="__typename"), alias=None, arguments=[],
+                                                                            directives=[], selection_set=None)]) if composite else None)
+
+        for cond, fd in ((x, fx), (y, fy)):
+            inner = A.Field(name=A.Name(value=fd["name"]), alias=A.Name(value="key"), arguments=[], directives=[],
+                            selection_set=A.SelectionSet(selections=[leaf(_named(fd["type"]))]))
+            ss.selections.insert(draw(st.integers(0, len(ss.selections))),
+                                 A.InlineFragment(type_condition=A.NamedType(name=A.Name(value=cond)), directives=[],
+                                                  selection_set=A.SelectionSet(selections=[inner])))
+        return "shared-field-under-two-parents"
     if k == 25:
         # a nullable variable as an *item* of a list literal whose items are non-null: never allowed, whatever default the
         # enclosing argument declares (a list entry is a position of its own, without a default)
@@ -148,7 +219,10 @@ def mutate(draw, doc, spec, A, parse_value):
             g = f.deepcopy()
             if g.arguments and draw(st.booleans()):
                 x = draw(st.sampled_from(g.arguments))
-                x.value = parse_value(draw(st.sampled_from(VALUE_TEXTS + ["$v0", "$zz"])))
+                # either a value of another kind, or a near miss of the value written: a list one item longer or shorter (one is
+                # a prefix of the other), an input object with one entry less, the same again one level further in
+                if not (draw(st.booleans()) and _near_miss(draw, x.value, A, parse_value)):
+                    x.value = parse_value(draw(st.sampled_from(VALUE_TEXTS + ["$v0", "$zz"])))
             ss.selections.insert(draw(st.integers(0, len(ss.selections))), g)
             return "duplicate-field-variant"
         return None
